@@ -36,7 +36,7 @@ TOL_COND = 4e-8
 @st.composite
 def strategy_(draw, tier):
     mm = 4 if tier == "quick" else 5
-    mdl = draw(gen.any_model_st(max_modes=mm, beta_lo=0.1, beta_hi=100.0, wide=True))
+    mdl = draw(gen.any_model_st(max_modes=mm, beta_lo=0.1, beta_hi=100.0, wide=True, wide_beta_e=1e6))
     N = M.n_modes(mdl["sites"])
     ix = st.integers(0, N - 1)
     comps = draw(st.lists(gen.chi_quad_st(N), min_size=1, max_size=2, unique=True))
@@ -159,6 +159,9 @@ def execute(case, ctx):
             # sum of the absolute values of the individual Lehmann contributions (merging poles closer than 1e-8 shifts a
             # contribution by at most 1e-8*beta/pi of itself per denominator; observed rounding is below 1e-13 of that sum)
             tol = min(TOL * (abs(r) + S), TOL_COND * (1.0 + beta) * ref.last_cond) + fl
+            # ill-conditioned eigenvectors (large ||H||, small gaps): what a backward-stable eigensolver may legitimately return moves
+            # the value by about this much (zero unless eps*||H||/gap > 1e-12)
+            tol += 10.0 * ref.vec_sens(lambda q: q.chi4(i, j, k, l, n1, n2, n3))
             v = od[t]
             if S > 0:
                 maxratio = max(maxratio, abs(v - r) / (abs(r) + S))
@@ -197,6 +200,7 @@ def execute(case, ctx):
                     classes.append("shifted-ambiguous")
                 else:
                     tolz = min(TOL * (abs(r) + beta ** 3 * sc), TOL_COND * (1.0 + beta) * ref.last_cond) + chi_floor(beta, ref.N)
+                    tolz += 10.0 * ref.vec_sens(lambda q: q.chi4(i, j, k, l, e["n"][0], e["n"][1], e["n"][2], shifts=tuple(e["mu"])))
                     if not abs(v - r) <= tolz:
                         return fail("chi_%d%d%d%d at z_k = i w_n + mu, n=%s mu=%s: on demand %r, reference %r, |diff| %.3e > tol %.3e" % (
                             i, j, k, l, e["n"], e["mu"], v, r, abs(v - r), tolz), "mismatch-ref-shifted", {"triple": e})
